@@ -355,7 +355,13 @@ pub(crate) fn t_p_trans() {
             kv_assert!(rcalls == 0, "[C03] print performs no other action");
         }
         Act::Ignore => {
-            kv_assert!(out.is_none() && rcalls == 0, "[C03][C20] ignored characters cause no action");
+            // two clauses so that the counterexample of the first one is a control that has a function:
+            // only then does the real Parser::execute (no recorder in a native replay) show the difference
+            if ref_exec(ch).is_some() {
+                kv_assert!(out.is_none() && rcalls == 0, "[C03][C20] an ignored control character is not executed");
+            } else {
+                kv_assert!(out.is_none() && rcalls == 0, "[C03][C20] ignored characters cause no action");
+            }
         }
         a => {
             // under Kani the helpers are recorders; in a native replay the real helpers ran, so
